@@ -35,6 +35,8 @@ def build(features=(), target=None, curves=False):
     """cargo build --release of the harness against /repo's working tree."""
     t0 = time.time()
     subprocess.run(["python3", V + "/lib/gen_toy.py"], check=True, capture_output=True)
+    subprocess.run(["python3", V + "/lib/gen_config.py"], check=True, capture_output=True)      # C16: dumpers follow the source text of /repo
+    if curves: subprocess.run(["python3", V + "/lib/gen_curves_main.py"], check=True, capture_output=True)
     if not os.path.exists(HARNESS + "/vh-core/src/gen_zoo.rs") or os.path.getsize(HARNESS + "/vh-core/src/gen_zoo.rs") < 1000:
         subprocess.run(["python3", V + "/lib/gen_zoo.py"], check=True, capture_output=True)
     tdir = HARNESS + "/" + (target or "target")
